@@ -27,7 +27,12 @@ claim("C01", "proof",
       "End to end (Props/EndToEnd.lean, 44 theorems): tucMain (= parse_args + regex compilation + dispatch, the definition the K-argv differential ties to the "
       "binary) on every canonical command line of field mode equals .run (specRun K.cfg input) — tuc_fields_eq_spec, and likewise --json, -M (admissible inputs, every "
       "segmentation), -b, -c, -l (both algorithms) and tuc_reject_iff_conflict. Direct oracle: implementation vs the executed specification, bounded-exhaustive + random, through read_and_cut_str, the fast lane and "
-      "main's dispatch; the real binary against the library fed in small pieces on inputs up to 260 KB.",
+      "main's dispatch; the real binary against the library fed in small pieces on inputs up to 260 KB. "
+      "The body of cut_str itself (cut_str.rs:260-456, with the machine-integer try_into_range) is transcribed statement by statement and proved equal to the model — run and both scratch buffers — for every record and option record "
+      "(Props/CutStrLit.lean: cutStrLit_eq under BoundsOk, which every parsed command line satisfies, and fewer than 2^31 fields, shown necessary by cutStrLit_length_necessary). CAPSTONE (Props/WholeLit.lean): "
+      "tucProgramLit — the whole program assembled ONLY from the statement-level transcriptions (parse_args, dispatch, bstr's for_byte_record / std's read_until over a segmented reader, cut_str, the fast lane, the -M loop, both -l "
+      "algorithms, byte mode) — equals tucMain for every argument vector, input and segmentation into non-empty reads on a decidable domain (records below the i32 limits); corollaries: never panics or hangs there, chunk "
+      "independence of the whole program for every engine, and the end-to-end specification theorems transported to it (tucProgramLit_fields_eq_spec).",
       TIE,
       "Lean 4 theorems over a hand-written model + differential correspondence + executed abstract specification as oracle", "§4 C01")
 
